@@ -24,7 +24,10 @@ warnings.filterwarnings('ignore', category=SyntaxWarning)
 ID = 'C02'
 LEAN_MODULE = 'Pycel.Props.C02'
 NS = 'Pycel.Formula.'
-THEOREMS = [NS + t for t in ()]
+THEOREMS = [NS + t for t in (
+    'C02_levels', 'C02_left_assoc', 'C02_table_is_spec', 'C02_parse', 'C02_amend', 'C02_parse_raw', 'C02_build', 'C02_parse_tree', 'C02_emit',
+    'emit_current_counterexample', 'C02_literal_text', 'C02_literal', 'literal_current_counterexample',
+    'C02_number', 'number_current_counterexample', 'C02_literal_logical', 'C02_literal_error', 'evalPy_toPy', 'C02_sound', 'C02_sound_raw')]
 DESIGN_REF = 'DESIGN.md §7 C02'
 RULE = ('surf: every tree of depth <= 2 over {neg, %, ^, *, +, &, <} x leaves {number, cell[, text]} rendered with the '
         'minimal parentheses the levelled grammar needs, plus random trees to depth 5 over all 12 arithmetic/comparison '
@@ -47,6 +50,14 @@ TRUSTED = ['modelled, not verified: openpyxl tokenizer, CPython tokenizer/parser
 REQUIRED_BUCKETS = ['surf:wf', 'surf:nonwf', 'surf:neg-under-pow', 'surf:func', 'surf:literal-text',
                     'surf:literal-number', 'raw', 'raw:error', 'py', 'py:reject']
 EXHAUSTIVE = False
+EXPLANATION = ('Theorems (Props/C02.lean) hold for every surface expression / tree / character list: the live precedence '
+               'table equals the statement\'s levels (C02_levels, C02_left_assoc, C02_table_is_spec); amend + shunting-yard '
+               'invert the levelled grammar (C02_amend, C02_parse, C02_parse_raw), _build_ast inverts rpn (C02_build); the '
+               'emitted Python token list parses under the model of Python\'s grammar to the tree (C02_emit), literals '
+               'denote themselves (C02_literal*, C02_number); composition C02_sound(_raw) for every run-time semantics. '
+               'The correspondence compares tokens, rpn, tree, python tokens, CPython ast and values of the real pycel with '
+               'the driver; the oracle restates the property over implementation outputs only (ast = grammar tree, CPython '
+               'ast of python_code = tree shape, code invariant under re-rendering, literal and arithmetic values).')
 
 OPS = {'pow': ('^', 5), 'mul': ('*', 4), 'div': ('/', 4), 'add': ('+', 3), 'sub': ('-', 3), 'concat': ('&', 2),
        'eq': ('=', 1), 'lt': ('<', 1), 'gt': ('>', 1), 'le': ('<=', 1), 'ge': ('>=', 1), 'ne': ('<>', 1),
